@@ -47,15 +47,27 @@ AutolinkEnd(r, i) ==
         sch == LetterRun(r, i + 1) IN
     IF g > 0 /\ sch >= 2 /\ sch <= 32 /\ At(r, i + 1 + sch) = ":" /\ \A q \in (i + 1)..(g - 1) : r[q] \notin {" ", "<"} THEN g ELSE 0
 
-(* raw HTML: an open tag <name attr* /?> or a closing tag </name>; names and attribute names are letters, attributes have no value *)
+(* raw HTML: an open tag <name attr* /?> or a closing tag </name> *)
 RECURSIVE SpaceRun(_, _)
 SpaceRun(r, i) == IF At(r, i) = " " THEN 1 + SpaceRun(r, i + 1) ELSE 0
 (* attribute name: a letter, "_" or ":", then letters, "_", ":", ".", "-" (digits do not occur in the raw alphabets) *)
 RECURSIVE AttrRest(_, _)
 AttrRest(r, i) == IF At(r, i) \in (Letters \cup {"_", ":", ".", "-"}) THEN 1 + AttrRest(r, i + 1) ELSE 0
 AttrName(r, i) == IF At(r, i) \in (Letters \cup {"_", ":"}) THEN 1 + AttrRest(r, i + 1) ELSE 0
+(* attribute value specification behind an attribute name that ends before j: optional spaces, "=", optional spaces, and a value -
+   unquoted (a non-empty run without space, quotes, "=", "<", ">", backtick), or in single or double quotes (anything but the quote).
+   First position behind the value, or j if there is no value specification. *)
+NextOf(r, from, c) == LET S == {q \in from..Len(r) : r[q] = c} IN IF S = {} THEN 0 ELSE CHOOSE q \in S : \A q2 \in S : q <= q2
+RECURSIVE UnquotedRun(_, _)
+UnquotedRun(r, i) == IF At(r, i) # "" /\ At(r, i) \notin {" ", "\"", "'", "=", "<", ">", "`"} THEN 1 + UnquotedRun(r, i + 1) ELSE 0
+AfterValue(r, j) ==
+    LET k == j + SpaceRun(r, j)
+        v == k + 1 + SpaceRun(r, k + 1) IN
+    IF At(r, k) # "=" THEN j
+    ELSE IF At(r, v) \in {"\"", "'"} THEN (LET q == NextOf(r, v + 1, r[v]) IN IF q > 0 THEN q + 1 ELSE j)
+    ELSE IF UnquotedRun(r, v) > 0 THEN v + UnquotedRun(r, v) ELSE j
 RECURSIVE AfterAttrs(_, _)
-AfterAttrs(r, i) == LET sp == SpaceRun(r, i) nm == AttrName(r, i + sp) IN IF sp > 0 /\ nm > 0 THEN AfterAttrs(r, i + sp + nm) ELSE i
+AfterAttrs(r, i) == LET sp == SpaceRun(r, i) nm == AttrName(r, i + sp) IN IF sp > 0 /\ nm > 0 THEN AfterAttrs(r, AfterValue(r, i + sp + nm)) ELSE i
 (* tag name: a letter, then letters, digits or hyphens *)
 TagName(r, i) == IF At(r, i) \in Letters THEN 1 + RunIn(r, i + 1, Letters \cup {"-", "2", "3", "4", "5"}) ELSE 0
 HtmlTagEnd(r, i) ==
